@@ -89,7 +89,7 @@ def cases(tier, seed):
                 for adjust in ("spacing", "region"):
                     for pixel in (False, True):
                         for mesh in (True, False):
-                            for extra in (None, 57.0, [57.0, 0.125]):
+                            for extra in (None, 57.0, [57.0, 0.125], 0.0, [0.0]):
                                 yield dict(kind="grid", sc=sc, region=region, spec=spec, adjust=adjust, pixel=pixel,
                                            mesh=mesh, extra=extra)
         for bad in ("both", "neither", "three_spacings", "bad_adjust", "w_gt_e", "s_gt_n", "len3", "len5",
@@ -99,7 +99,7 @@ def cases(tier, seed):
         for p1 in pts:
             for p2 in pts:
                 for size in range(1, 6):
-                    for extra in (None, 35.0, [35.0, 0.5]):
+                    for extra in (None, 35.0, [35.0, 0.5], 0.0):
                         yield dict(kind="profile", sc=sc, p1=list(p1), p2=list(p2), size=size, extra=extra)
 
 
